@@ -142,6 +142,8 @@ ZoneSpec gen_zone(Rng &r)
 	unsigned nty = (unsigned)r.range(1, 8);
 	if (r.chance(1, 10))
 		nty = (unsigned)r.range(9, 40);
+	else if (r.chance(1, 20))
+		nty = (unsigned)r.range(120, 256);	/* the type index is one byte: all of its values */
 	for (unsigned i = 0; i < nty; i++) {
 		int32_t o;
 		unsigned k = (unsigned)r.below(10);
@@ -739,23 +741,46 @@ struct ZoneEngine : Engine {
 				if (cand >= -11644000000LL && cand <= 60000000000LL)
 					t = cand;
 			}
-			q.argv = {"dzone", "--next", "--prev", "/sim/zi/Z", model::fmt_iso(t)};
-			long idx = m.idx_at(t);
+			/* one to three instants in one run: the first, one more in the same range, one from the ops */
+			std::vector<int64_t> qs = {t};
+			if (p.hash() & 8) {
+				long i0 = m.idx_at(t);
+				int64_t hi = m.ent.empty() || (size_t)(i0 + 1) >= m.ent.size() ? t + 86400 * 30 : m.ent[(size_t)i0 + 1].t - 1;
+				int64_t t2 = t + (hi - t) / 2 + 1;
+				if (t2 <= hi && t2 <= 60000000000LL && m.idx_at(t2) == i0)
+					qs.push_back(t2);
+				if ((p.hash() & 16) && ts.size() > 1)
+					qs.push_back(ts[1]);
+			}
+			/* the placeholder comparison (first range, left-hand side open) handles one output line:
+			 * an instant in the first range is asked alone */
+			for (int64_t tq : qs)
+				if (!m.ent.empty() && m.idx_at(tq) == 0) {
+					qs = {tq};
+					break;
+				}
+			q.argv = {"dzone", "--next", "--prev", "/sim/zi/Z"};
 			auto tr = [&](int64_t at, int32_t off) { return model::fmt_iso(at + off) + zstr(off); };
-			std::string nx, pv;
-			if (m.ent.empty() || (size_t)idx + 1 >= m.ent.size())
-				nx = "never -> never";
-			else
-				nx = tr(m.ent[(size_t)idx + 1].t, m.off_at(t)) + " -> " + tr(m.ent[(size_t)idx + 1].t, m.ent[(size_t)idx + 1].off);
-			if (m.ent.empty() || idx < 0)
-				pv = "never <- never";
-			else if (idx == 0)
-				/* the adjacent entry is the first one; the offset in force before it is not in the table,
-				 * so only the right-hand side is judged (pv_suffix below) */
-				pv = "\x01 <- " + tr(m.ent[0].t, m.ent[0].off);
-			else
-				pv = tr(m.ent[(size_t)idx].t, m.ent[(size_t)idx - 1].off) + " <- " + tr(m.ent[(size_t)idx].t, m.ent[(size_t)idx].off);
-			expect = nx + "\t/sim/zi/Z\n" + pv + "\t/sim/zi/Z\n";
+			for (int64_t tq : qs) {
+				q.argv.push_back(model::fmt_iso(tq));
+				long idx = m.idx_at(tq);
+				std::string nx, pv;
+				if (m.ent.empty() || (size_t)(idx + 1) >= m.ent.size())
+					nx = "never -> never";
+				else
+					nx = tr(m.ent[(size_t)idx + 1].t, m.off_at(tq)) + " -> " + tr(m.ent[(size_t)idx + 1].t, m.ent[(size_t)idx + 1].off);
+				if (m.ent.empty() || idx < 0)
+					pv = "never <- never";
+				else if (idx == 0)
+					/* the adjacent entry is the first one; the offset in force before it is not in the table,
+					 * so only the right-hand side is judged */
+					pv = "\x01 <- " + tr(m.ent[0].t, m.ent[0].off);
+				else
+					pv = tr(m.ent[(size_t)idx].t, m.ent[(size_t)idx - 1].off) + " <- " + tr(m.ent[(size_t)idx].t, m.ent[(size_t)idx].off);
+				expect += nx + "\t/sim/zi/Z\n" + pv + "\t/sim/zi/Z\n";
+			}
+			if (collect && qs.size() > 1)
+				st.named["tool_dzone_several_instants"]++;
 			for (auto &e : m.ent)
 				if (e.t < -11644000000LL || e.t > 60000000000LL)
 					return v;
@@ -819,6 +844,24 @@ struct ZoneEngine : Engine {
 };
 
 } /* anon */
+
+std::string synth_zone_image(Rng &r, bool many_types)
+{
+	ZoneSpec z = gen_zone(r);
+	if (many_types) {
+		/* every value of the one-byte type index in use, few transitions: what lies in front of the
+		 * offset table is then outside the loaded data */
+		while (z.off.size() < 256)
+			z.off.push_back((int32_t)r.range(-48, 56) * 900);
+		if (z.tr.size() > 24) {
+			z.tr.resize(24);
+			z.ty.resize(24);
+		}
+		for (auto &t : z.ty)
+			t = (int)r.range(100, 255);
+	}
+	return zone_bytes(z);
+}
 
 Engine *make_zone_engine() { return new ZoneEngine(false); }
 Engine *make_zoneh_engine() { return new ZoneEngine(true); }
